@@ -177,7 +177,8 @@ FIXED = [
   fixed("C13", "keep a blank between a hashed identifier and the underscore of an attachment", "'$#x _ y$' -> '$#x_y$': the subscript became part of the identifier (found by a single-character damage under C13; also C01 C09)"),
   fixed("C10", "keep the comma added to an unfolded 2D math row apart from a backslash", "'$fn(x, //c<newline>y \\ ; z)$' -> 'y \\, ;': the comma that an unfolded row gets after its last item formed the escape '\\,' behind a backslash (C10 quick tier on the math edge productions; also C06: the escape shifted the census position of later comments, former entry K2-C06)"),
   fixed("C04", "do not overflow when blank_lines_upper_bound is usize::MAX", "with blank_lines_upper_bound = usize::MAX the line breaks between table arguments were dropped and a line comment swallowed what followed (side remark of a sub-agent; blank_lines_upper_bound is now a configuration dimension of every sweep; also C01 C06)"),
-  fixed("C04", "keep a float literal that ends with a dot apart from a field access after it", "'#(1. .f)' -> '#(1..f)' (side remark of a sub-agent; productions float_dot_field / float_dot_call; follow-up commit for the layout that keeps comments in place)"),
+  fixed("C04", "keep a float literal that ends with a dot apart from a field access after it", "'#(1. .f)' -> '#(1..f)' (side remark of a sub-agent; productions float_dot_field / float_dot_call; follow-up commits: the layout that keeps comments in place, and - found by the thorough tier of C10 - no blank after a float that is the callee at the bottom of a chain)"),
+  fixed("C10", "keep a blank between a hashed float that ends with a dot and the underscore of an attachment", "'$#1. _ x$' -> '$#1._x$' (thorough tier of C10: literal float_dot below m_hash_sub; also C01)"),
   fixed("C04", "keep a backslash at the end of a term apart from the colon", "'/ term \\ : desc' -> '/ term \\: desc': escaped colon, the output no longer parsed (side remark of a sub-agent; production term_bs; also C01 C08)"),
   fixed("C01", "indent the lines of a list item far enough to stay inside the item", "tab_spaces = 0 moved every nested item to column 0; '10. - a' / '- - a' with tab_spaces = 1 put continuation lines into the column of the inner marker (side remark of a sub-agent; indent units 0 and 1 are now part of every sweep, productions list_list, enum_wide_list ...; follow-up commit: the outer item is indented by the width of its marker; also C02 C03 C08)"),
   fixed("C01", "align the body of a list item that starts with another item to the column where it starts", "follow-ups of the nesting repair: '- - a' with tab_spaces = 4 put the lines of the outer item into the inner one; a term item whose description starts with an item ('/ term: - a') and a comment in front of the outer marker moved the column of the inner marker (found by the productions list_list, enum_wide_list, term_list_same ... added for the repair; also C02 C03 C13)"),
